@@ -60,7 +60,7 @@ def run(ctx):
                 'other payloads before loading')
     ctx.assumptions += ['pickle round-trips the dict of scipy sparse matrices / lists exactly', 'scipy.sparse toarray() returns the stored entries']
     reqs, impl = [], []
-    n = 200 if ctx.quick() else 4000
+    n = 500 if ctx.quick() else 6000
     for it in range(n):
         nl = rng.randrange(0, 7)
         ids = ['l%d' % i for i in range(nl)]
